@@ -7,6 +7,7 @@ import (
 	"sort"
 	"strings"
 	"sync"
+	"sync/atomic"
 	"time"
 
 	"github.com/btcsuite/btcd/btcutil/v2"
@@ -198,6 +199,7 @@ func (c *traceCollector) validate(ctx *vrun.Ctx) error {
 	sort.Strings(keys)
 	var firstErr error
 	var mu sync.Mutex
+	var nRejected, nAccepted int64
 	sem := make(chan struct{}, 4)
 	var wg sync.WaitGroup
 	for _, k := range keys {
@@ -231,15 +233,22 @@ func (c *traceCollector) validate(ctx *vrun.Ctx) error {
 			if !res.OK {
 				// The durable state derived from the real commits breaks a recoverability invariant of ChainStore.tla at some commit.
 				// Verdicts come from the crash enumeration at that very commit; here it is recorded as drift between code and specification.
+				atomic.AddInt64(&nRejected, 1)
 				ctx.AddExtra("commit_traces_rejected", 1)
 				ctx.SetExtra("commit_trace_rejection_"+k, fmt.Sprintf("%s %s", res.ErrKind, res.ErrName))
 				ctx.Logf("commit trace for tree <<%s>> rejected by TraceChainStore: %s %s", k, res.ErrKind, res.ErrName)
 			} else {
+				atomic.AddInt64(&nAccepted, 1)
 				ctx.AddExtra("commit_records_validated", int64(len(c.byTree[k])))
 			}
 		}(k)
 	}
 	wg.Wait()
+	if firstErr == nil && nRejected > 0 && nAccepted == 0 {
+		// not a verdict about btcd: when NO recorded commit sequence is a behaviour of the specification, the recorder
+		// (or the specification) no longer describes the code at all and the code->spec half of the check is void
+		return fmt.Errorf("TraceChainStore.tla rejects every recorded commit trace (%d): the commit recorder and the specification disagree", nRejected)
+	}
 	return firstErr
 }
 
